@@ -459,7 +459,11 @@ static std::string run_cmd(const std::vector<std::string>& a) {
         need(1);
         const int s = slot_of(a[1]); if (s < 0) return "ERR";
         upa::url_search_params* p = nullptr;
-        if (linked) { g_sp[s] = &U(s).search_params(); p = g_sp[s]; }
+        if (linked) {
+            g_sp[s] = &U(s).search_params(); p = g_sp[s];
+            // the list of an invalid owner is outside every property: not exercised, not compared
+            if (!U(s).is_valid()) return "sp valid=0 skipped";
+        }
         else {
             if (op == "new") { need(2); Tok t; if (!parse_tok(a[2], t)) return "ERR"; WITH_STR(t, S, g_usp[s].reset(new upa::url_search_params(S))); return "usp " + usp_state(*g_usp[s]); }
             if (op == "empty") { g_usp[s].reset(new upa::url_search_params()); return "usp " + usp_state(*g_usp[s]); }
@@ -541,6 +545,18 @@ static std::string run_cmd(const std::vector<std::string>& a) {
     if (c == "tofile") { need(2); const int s = slot_of(a[1]); if (s < 0) return "ERR";
         const auto fmt = a[2] == "posix" ? upa::file_path_format::posix : upa::file_path_format::windows;
         const std::string p = upa::path_from_file_url(U(s), fmt); return "tofile ok " + hx(p); }
+    if (c == "filert") {
+        // filert <posix|windows> <path>: path -> url -> path -> url -> path
+        need(2); Tok t; if (!parse_tok(a[2], t)) return "ERR";
+        const auto fmt = a[1] == "posix" ? upa::file_path_format::posix : upa::file_path_format::windows;
+        upa::url u1;
+        try { WITH_STR(t, S, u1 = upa::url_from_file_path(S, fmt)); } catch (const upa::url_error&) { return "filert reject"; }
+        std::string p1, p2;
+        try { p1 = upa::path_from_file_url(u1, fmt); } catch (const upa::url_error&) { return "filert accepted toerr host=" + hx(u1.hostname()); }
+        try { upa::url u2 = upa::url_from_file_path(p1, fmt); p2 = upa::path_from_file_url(u2, fmt); }
+        catch (const upa::url_error&) { return "filert accepted p1=" + hx(p1) + " again-err host=" + hx(u1.hostname()); }
+        return "filert accepted p1=" + hx(p1) + " p2=" + hx(p2) + " host=" + hx(u1.hostname()) + " href=" + hx(u1.href());
+    }
     if (c == "checkfix") { need(1); Tok t; if (!parse_tok(a[1], t)) return "ERR"; std::string s = t.s8; upa::url_utf::check_fix_utf8(s); return "checkfix " + hx(s); }
     if (c == "toutf8") { need(1); Tok t; if (!parse_tok(a[1], t)) return "ERR"; std::string o;
         if (t.enc == 'h') o = upa::url_utf::to_utf8_string(t.s16.data(), t.s16.data() + t.s16.size());
